@@ -1,10 +1,8 @@
 """C03 - a parent never holds two children with the same data_id; every route that would create such a pair is
 refused with UniqueConstraintError.
 
-NOTE on `coq_prop`: the refusal theorems are being written in Properties/C03.v (branch agent/LBP).  Until that
-file is merged this module points at Properties/C01.v, whose invariant WFw contains the sibling-uniqueness
-clause (`wf_su`: SU (forest_of t)) for every reachable state; the main session switches `coq_prop` to
-"Properties/C03.v" when it exists.
+Theorems: Properties/C03.v (sibling uniqueness is a clause of the invariant WFw, preserved by every history;
+per-route refusal theorems `C03_*_refused`; `C03_uniqueness_test_exact`).
 
 Tie:
 * correspondence (`CaseMut.run_mut`): result (incl. the error class - EUnique = 1) and full state of every tree
@@ -95,7 +93,7 @@ def gen_load(rng):
 
 class Prop:
     id = "C03"
-    coq_prop = "Properties/C01.v"     # -> "Properties/C03.v" once merged from agent/LBP (see module docstring)
+    coq_prop = "Properties/C03.v"
     case_module = "CaseMut"
     case_vo = "theories/Cases/CaseMut.vo"
     run_fn = "run_mut"
@@ -155,6 +153,8 @@ class Prop:
                 alts = [a for a in alts if a[0] not in [f for f, _ in thin] or id(a) in keep]
             for i in range(0, len(alts), CHUNK):
                 yield dict(kind="alts", univ=g["univ"], setup=g["setup"], alts=alts[i:i + CHUNK], label=g["label"])
+        for g in mut.gen_addtree(typed=(False,) if quick else (False, True)):
+            yield dict(kind="alts", univ=g["univ"], setup=g["setup"], alts=g["alts"], label=g["label"])
         if not quick:
             for g in mut.gen_exhaustive(3, typed=(True,), families=FAMILIES):
                 for i in range(0, len(g["alts"]), CHUNK):
